@@ -21,7 +21,7 @@ RULE = ("histories of Session-Id generating operations for 1..3 identities under
         ">= 2 bulk origin updates that switch identity within one clock second, or ids generated for >= 2 identities within one "
         "second; distinct by SHA-1 of the case record")
 
-IDENTS = ["mme.epc.example.org", "hss.example", "a", "nœud.example"]
+IDENTS = ["mme.epc.example.org", "hss.example", "a", "nœud.example", "mme.epc", "hss.example.org"]
 
 
 class _FakeDatetimeModule:
